@@ -55,7 +55,27 @@ def exhaustive(depth, sources=None):
         yield from rec(["N0=" + s], True, depth)
 
 
+def shared_shuffles():
+    """one slice consumed by two shuffling operators in the same program (their compiled producers must not be confused:
+    different partition functions, partition counts, combiners)"""
+    rows = "1:1 2:2 1:3 4:4 2:5 7:6 1:7 3:8 2:9 5:10"
+    cons = ["repartition N0 byval", "repartition N0 zero", "reshuffle N0", "fold N0", "reduce N0 add", "reshard N0 2", "reshard N0 3"]
+    for nsh in (2, 3):
+        for a in cons:
+            for b in cons:
+                if a == b:
+                    continue
+                yield "N0=const %d %s ; N1=%s ; N2=%s ; N3=cogroup N1 N2 ; OUT N3" % (nsh, rows, a, b)
+                yield "N0=const %d %s ; N1=%s ; N2=cogroup N1 N0 ; OUT N2" % (nsh, rows, a)
+                yield "N0=const %d %s ; N1=%s ; N2=cogroup N0 N1 ; OUT N2" % (nsh, rows, a)
+
+
 def gen(r, tier):
+    ss = list(shared_shuffles())
+    if tier == "quick":
+        ss = [c for c in ss if r.below(3) == 0]
+    for p in ss:
+        yield "local CH%d ;; %s" % (r.choice([2, 128]), p)
     # bounded-exhaustive part: all chains of depth 1 (and 2 in the thorough tier; a sample of them in the quick tier)
     for p in exhaustive(1):
         yield "local CH%d ;; %s" % (r.choice([1, 2, 128]), p)
